@@ -6,7 +6,8 @@ import Logrange.Generated.C18
 `fw <N0> <start> <label>*` with labels `qt` (transport error), `qs` (server error), `qe` (empty result),
 `p<k>a` / `p<k>r` (page of up to k events, sink accepts / rejects), `P` (persist tick), `S` (stop gracefully,
 final persist, restart), `G` (cancel, final persist, restart), `C` (crash, restart from what is persisted),
-`g<k>` (the partition grows by k).
+`g<k>` (the partition grows by k), `x<k>` (the sink accepts a page of up to k events and the process dies before
+`setPosition`; restart).
 Answer: `deliv=<a-b;c-d;…|-> pos=<n> desc=<n> persisted=<n>` (accepted batches `[a,b)` in order).
 -/
 open Go Driver Logrange.Forwarder
@@ -24,6 +25,7 @@ def parseLabel (t : String) : Option L :=
   else if t == "G" then some .graceful
   else if t == "C" then some .crash
   else if t.startsWith "g" then (t.drop 1).toString.toNat?.map L.grow
+  else if t.startsWith "x" then (t.drop 1).toString.toNat?.map L.crashAfterAccept
   else if t.startsWith "p" && t.endsWith "a" then ((t.drop 1).dropEnd 1).toString.toNat?.map (L.page · true)
   else if t.startsWith "p" && t.endsWith "r" then ((t.drop 1).dropEnd 1).toString.toNat?.map (L.page · false)
   else none
